@@ -249,7 +249,7 @@ def runStep : Step → G → R
   | .setProfiles l, g => ⟨.ok (), { g with profiles := l }, []⟩
   | .newParser p, g => ⟨.ok (), { g with parsers := g.parsers ++ [p] }, []⟩
   -- in all four: `if validate is None: validate = self._validate` (parse.py:101-102,139-140) — a local variable
-  | .parseString p v inp body, g =>                          -- parse.py:133-153
+  | .parseString p v inp body, g =>                          -- parse.py:107-171 (`parseString` → `__parseString`)
     withParseSetting (g.parser p) (fun g1 => decode inp g1 fun g1 =>
       seqR (runSteps body g1) fun g2 => ⟨.ok (), g2, [.validating (v.getD (g.parser p).validate)]⟩) g
   | .parseStyle p v inp body, g =>                           -- parse.py:97-103
@@ -259,7 +259,7 @@ def runStep : Step → G → R
     if !found then ⟨.error .os, g, []⟩                       -- :183 open(filename, 'rb') outside the `with`
     else withParseSetting (g.parser p) (fun g1 => decode inp g1 fun g1 =>
       seqR (runSteps body g1) fun g2 => ⟨.ok (), g2, [.validating (v.getD (g.parser p).validate)]⟩) g
-  | .parseUrl p v inner res inp body, g =>                   -- parse.py:213-229
+  | .parseUrl p v inner res inp body, g =>                   -- parse.py:209-239 (→ `__parseString`)
     -- `_readUrl` runs BEFORE `__parseSetting`: the fetcher sees the global mode and its exceptions propagate
     seqR ⟨.ok (), g, [.seen g.raising]⟩ fun g =>
     seqR (runSteps inner g) fun g =>
